@@ -136,7 +136,9 @@ def param_paths(t):
 
 
 def range_expr(it):
-    """(start, end) terms if `it` is a Range adt"""
+    """(start, end) terms if `it` is a Range adt (or the site-stamped iterator of a `for` loop over one)"""
+    if isinstance(it, tuple) and len(it) == 3 and it[0] == "rng":
+        it = it[2]
     if isinstance(it, tuple) and it and it[0] == "adt" and it[1].endswith("ops::range::Range"):
         d = dict(it[3])
         return d.get("start"), d.get("end")
